@@ -39,19 +39,19 @@ def bounds(tier):
 
 
 # ---- (a) ------------------------------------------------------------------------------------------------------------
-def fidelity_case(flavour, ka, lt, dname, mname, pname, lease, fs, part):
+def fidelity_case(flavour, ka, lt, dname, mname, pname, lease, fs, part, pub=False):
     from rsocket.payload import Payload
     enc = encodings()
     payload = None if PAYLOADS[pname] is None else Payload(*PAYLOADS[pname])
     s = Solo('client', flavour, keep_alive_period=timedelta(milliseconds=ka), max_lifetime_period=timedelta(milliseconds=lt),
              data_encoding=enc[dname][0], metadata_encoding=enc[mname][0], setup_payload=payload, honor_lease=lease,
-             fragment_size_bytes=fs)
+             fragment_size_bytes=fs, **({'lease_publisher': __import__('rsocket.lease', fromlist=['SingleLeasePublisher']).SingleLeasePublisher()} if pub else {}))
     try:
         frames = s.sent()
         part.evaluations += 1
         part.traces += 1
         part.transitions += 1
-        wit = {'kind': 'fidelity', 'flavour': flavour, 'ka': ka, 'lt': lt, 'd': dname, 'm': mname, 'p': pname, 'lease': lease, 'fs': fs}
+        wit = {'kind': 'fidelity', 'flavour': flavour, 'ka': ka, 'lt': lt, 'd': dname, 'm': mname, 'p': pname, 'lease': lease, 'fs': fs, 'pub': pub}
         if not frames or frames[0].type != R.SETUP or sum(1 for f in frames if f.type == R.SETUP) != 1:
             part.violate('C16.setup-first', 'C16.setup-first | fidelity-run', 'frames after connect: %s' % frames, wit)
             return
@@ -62,7 +62,7 @@ def fidelity_case(flavour, ka, lt, dname, mname, pname, lease, fs, part):
                   ('keep_alive_ms', f.keepalive_ms, ka, 'sub-second' if ka % 1000 else 'whole-seconds'),
                   ('max_lifetime_ms', f.lifetime_ms, lt, 'sub-second' if lt % 1000 else 'whole-seconds'),
                   ('data_mime', f.data_mime, enc[dname][1], dname), ('metadata_mime', f.metadata_mime, enc[mname][1], mname),
-                  ('lease_flag', bool(f.flags & R.F_LEASE), lease, 'any'), ('resume_flag', bool(f.flags & R.F_RESUME), False, 'any'),
+                  ('lease_flag', bool(f.flags & R.F_LEASE), lease, 'with-own-lease-publisher' if pub else 'any'), ('resume_flag', bool(f.flags & R.F_RESUME), False, 'any'),
                   ('data', bytes(f.data or b''), want_d or b'', pname), ('metadata', bytes(f.metadata or b''), want_m or b'', pname),
                   ('stream_id', f.sid, 0, 'any')]
         for name, got, want, cls in checks:
@@ -274,6 +274,8 @@ def run_unit(unit, part):
             fidelity_case(unit['flavour'], ka, lt, encs[i % len(encs)], encs[(i // 2) % len(encs)], sorted(PAYLOADS)[i % len(PAYLOADS)], unit['lease'], (None, 64)[i % 2], part)
         for dname, mname, pname, fs in itertools.product(encs, encs, sorted(PAYLOADS), (None, 64)):
             fidelity_case(unit['flavour'], 500, 1500, dname, mname, pname, unit['lease'], fs, part)
+            # the client's own lease publisher (its responder side) does not change what SETUP says about honouring leases
+            fidelity_case(unit['flavour'], 500, 1500, dname, mname, pname, unit['lease'], fs, part, pub=True)
             if unit['tier'] == 'thorough':
                 fidelity_case(unit['flavour'], 2250, 250, dname, mname, pname, unit['lease'], fs, part)
         part.sample({'kind': 'fidelity', 'link': unit['flavour'], 'lease': unit['lease'], 'periods_ms': list(PERIODS_MS)}, limit=1)
@@ -299,7 +301,7 @@ def replay(rec):
     w = rec['witness']
     if w.get('kind') == 'fidelity':
         p = Partial()
-        fidelity_case(w['flavour'], w['ka'], w['lt'], w['d'], w['m'], w['p'], w['lease'], w['fs'], p)
+        fidelity_case(w['flavour'], w['ka'], w['lt'], w['d'], w['m'], w['p'], w['lease'], w['fs'], p, w.get('pub', False))
         for v in p.violations.values():
             print(v.detail)
         return bool(p.violations)
